@@ -300,6 +300,13 @@ def blame_kinds(res):
         d = res.get('detail', {})
         if str(d.get('impl', '')).startswith('END ') or str(d.get('model', '')).startswith('END '):
             kinds.add('LEAK')        # allocation / object balance at the end differs from the model's (nothing live)
+        # a rehash / reserve after which the implementation's array holds a different set of pairs than the model's
+        # (whose rehash provably keeps the contents): "after rehash(n) or reserve(n) returns the contents are unchanged"
+        opw = str(d.get('op', '')).split()
+        if len(opw) >= 3 and opw[2].replace('l.', '') in ('rehash', 'reserve') and str(d.get('impl', '')).startswith(' C') and str(d.get('model', '')).startswith(' C'):
+            prs = lambda x: sorted(re.findall(r':(\d+=-?\d+)/', x))
+            if prs(d['impl']) != prs(d['model']):
+                kinds.add('C10'); kinds.add('C02')
         if 'consumed=' in str(d.get('impl', '')) + str(d.get('model', '')):
             kinds.add('CONSUMED')    # the caller's arguments were (not) moved from against the model
     return kinds
@@ -652,7 +659,7 @@ def check_C07(tier, seed):
     if tier != 'quick':
         cfgs += [t1.mkcfg(4, 1, 1, 1), t1.mkcfg(8, 1, 0), t1.mkcfg(1, 2, 1, 0), t1.mkcfg(4, 16, 0)]
     bins = t1.build_harness(cfgs)
-    n = 40 if tier == 'quick' else 800
+    n = 280 if tier == 'quick' else 2400
     if broken: n *= 3
     keep = os.path.join(BUILD, 'cases_' + pid)
     jobs = []
@@ -761,7 +768,7 @@ def check_T2(pid, tier, seed):
             for sc in gen_conc.gen_sweep2_layout(rng.getrandbits(48), c[0], c[1]):
                 jobs.append((bins[c], sc, 'sweep2_s%d_l%d' % c, keep, False)); nsw += 1
     # data accesses against the happens-before model: C03 (race clause) and C01 (no stale observation)
-    os.environ['VERIF_T2_MEM'] = '1' if pid in ('C03', 'C01') else '0'
+    os.environ['VERIF_T2_MEM'] = {'C03': '1', 'C01': 'random'}.get(pid, '0')   # C01: the randomly scheduled runs only (the sweeps are covered by C03)
     res = t2.run_many(jobs)
     # C06 "on creation the locked_table exposes every stored element (pending deferred migration is finished
     # first) ... hands it back intact": sequential locked-section scripts (with and without helper threads)
